@@ -181,6 +181,189 @@ impl Clone for TransitionCycle {
                 }
 //@end
 
+// ---- Transition: trusted stubs (verified in the transition slice; contract text copied from there) ---
+//@item solution/src/transition/modifications.rs Transition::add_vehicle_to_own_cycle : trusted
+//@retname r
+//@sig
+    requires
+        exists|tours: Map<VehicleIdx, Tour>| #[trigger] self.wf(network, tours),
+        !self.has_vehicle(vehicle),
+        tour_ok(network, new_tour),
+        self.total_len() < max_vehicles(),
+    ensures
+        forall|tours: Map<VehicleIdx, Tour>| #[trigger] self.wf(network, tours)
+            ==> r.wf(network, tours.insert(vehicle, *new_tour)), // @obl C15.add_vehicle_to_own_cycle.wf
+        // a new one-vehicle cycle, reusing an index from empty_cycles if there is one
+        r.has_vehicle(vehicle) && 0 <= r.cycle_of(vehicle) < r.n() && r.cyc(r.cycle_of(vehicle)) == seq![vehicle], // @obl C15.add_vehicle_to_own_cycle.membership
+        r.cycle_lookup@ == self.cycle_lookup@.insert(vehicle, r.cycle_of(vehicle) as usize),
+        self.empty_cycles@.len() == 0 ==> r.n() == self.n() + 1 && r.cycle_of(vehicle) == self.n(),
+        self.empty_cycles@.len() > 0 ==> r.n() == self.n() && r.cycle_of(vehicle) == self.empty_cycles@.last()
+            && r.empty_cycles@ == self.empty_cycles@.drop_last(), // @obl C15.add_vehicle_to_own_cycle.reuses_empty_cycle
+        forall|i: int| 0 <= i < self.n() && i != r.cycle_of(vehicle) ==> #[trigger] r.cyc(i) == self.cyc(i),
+//@end
+//@item solution/src/transition/modifications.rs Transition::update_vehicle : trusted
+//@retname r
+//@sig
+    requires
+        self.wf(network, eff_tours(updated_tours@, old_tours@)),
+        self.has_vehicle(vehicle),
+        // caller-side assumption: the tour that `vehicle` had so far is read from old_tours, i.e. a
+        // vehicle is updated at most once per round
+        !updated_tours@.contains_key(vehicle),
+        tour_ok(network, new_tour),
+    ensures
+        r.wf(network, eff_tours(updated_tours@, old_tours@).insert(vehicle, *new_tour)), // @obl C15.update_vehicle.wf
+        r.n() == self.n() && (forall|i: int| 0 <= i < self.n() ==> #[trigger] r.cyc(i) == self.cyc(i)), // @obl C15.update_vehicle.same_cycles
+        r.cycle_lookup@ == self.cycle_lookup@,
+        r.empty_cycles@ == self.empty_cycles@,
+//@end
+//@item solution/src/transition/modifications.rs Transition::remove_vehicle : trusted
+//@retname r
+//@sig
+    requires
+        self.wf(network, eff_tours(updated_tours@, old_tours@)),
+        self.has_vehicle(vehicle),
+        // caller-side assumption: the tour of the removed vehicle is read from old_tours
+        !updated_tours@.contains_key(vehicle),
+    ensures
+        r.wf(network, eff_tours(updated_tours@, old_tours@)), // @obl C15.remove_vehicle.wf
+        // the vehicle is gone from its cycle and from the lookup; the cycle index is pushed to
+        // empty_cycles if the cycle became empty
+        r.cycle_lookup@ == self.cycle_lookup@.remove(vehicle), // @obl C15.remove_vehicle.lookup
+        r.n() == self.n(),
+        r.cyc(self.cycle_of(vehicle)) == self.cyc(self.cycle_of(vehicle)).remove(self.cyc(self.cycle_of(vehicle)).index_of(vehicle)), // @obl C15.remove_vehicle.cycle
+        forall|i: int| 0 <= i < self.n() && i != self.cycle_of(vehicle) ==> #[trigger] r.cyc(i) == self.cyc(i),
+        r.empty_cycles@ == (if self.cyc(self.cycle_of(vehicle)).len() == 1 { self.empty_cycles@.push(self.cycle_of(vehicle) as CycleIdx) } else { self.empty_cycles@ }), // @obl C15.remove_vehicle.empty_cycles
+        r.total_len() == self.total_len() - 1,
+//@end
+//@item solution/src/transition.rs Transition::maintenance_violation
+//@retname r
+//@sig
+    ensures r == self.total_maintenance_violation,
+//@end
+
+// ---- (A) the incremental update of the rotation cycles and of the maintenance violation --------------
+//@item solution/src/schedule/modifications.rs Schedule::update_transitions_and_violation_fast
+//@viter
+//@sig
+    requires
+        // the old schedule is consistent (C15, C10, C09), no real vehicle is listed twice, every listed real
+        // vehicle is an old and / or a new vehicle with an admissible new tour, magnitudes: see upd_pre
+        self.upd_pre(old(transitions)@, *old(maintenance_violation) as int, changed_vehicles@, vehicles@, tours@),
+    ensures
+        forall|vt: VehicleTypeIdx| old(transitions)@.contains_key(vt) <==> #[trigger] final(transitions)@.contains_key(vt),
+        // C15 / C10: every transition is consistent with the NEW tours ...
+        forall|vt: VehicleTypeIdx| #[trigger] final(transitions)@.contains_key(vt) ==> final(transitions)@[vt].wf(&self.network, tours@), // @obl C10.update_transitions.consistent_with_new_tours
+        // ... and its cycles hold exactly the NEW vehicles of its type ("every real vehicle belongs to
+        // exactly one rotation cycle of its type": one cycle by wf_cycles / wf_lookup)
+        forall|vt: VehicleTypeIdx, v: VehicleIdx| #![trigger final(transitions)@[vt].has_vehicle(v)] final(transitions)@.contains_key(vt)
+            ==> (final(transitions)@[vt].has_vehicle(v) <==> (vehicles@.contains_key(v) && vtype(vehicles@[v]) == vt)), // @obl C10.update_transitions.membership
+        // C09: "the schedule's maintenance violation equals its from-scratch value"
+        *final(maintenance_violation) == viol_sum(final(transitions)@, sched_types(self)), // @obl C09.update_transitions.violation_sum
+        // the transitions of the other types are untouched
+        forall|vt: VehicleTypeIdx| #[trigger] final(transitions)@.contains_key(vt) && !self.touches_type(vehicles@, changed_vehicles@, vt)
+            ==> final(transitions)@[vt] == old(transitions)@[vt], // @obl C10.update_transitions.other_types_untouched
+//@closure-params filter#0
+    &&VehicleIdx
+//@closure filter#0
+    -> (b: bool) ensures b == (**v is Vehicle)
+//@closure unwrap_or_else#0
+    -> (q: &Vehicle) requires self.vehicles@.contains_key(*vehicle) ensures *q == self.vehicles@[*vehicle]
+//@first
+        let ghost trs0 = transitions@;
+        let ghost mv0 = *maintenance_violation as int;
+//@after "let mut tours_updated_one_by_one"
+        proof {
+            lemma_init(self, trs0, mv0, changed_vehicles@, vehicles@, tours@, Seq::<VehicleIdx>::empty());
+        }
+//@loop "for vehicle in"
+            invariant
+                is_real_filter(changed_vehicles@, it.snapshot@@),
+                0 <= it.index@ <= it.snapshot@@.len(),
+                self.upd_pre(trs0, mv0, changed_vehicles@, vehicles@, tours@),
+                self.inv_at(trs0, transitions@, tours_updated_one_by_one@, vehicles@, tours@, derefs(it.snapshot@@), it.index@ as int),
+                *maintenance_violation == viol_sum(transitions@, sched_types(self)),
+                len_sum(transitions@, sched_types(self)) + (changed_vehicles@.len() - it.index@) <= max_vehicles(),
+//@before "let vehicle_type"
+            let ghost rc = derefs(it.snapshot@@);
+            let ghost k = it.index@ as int;
+            let ghost upd0 = tours_updated_one_by_one@;
+            let ghost e0 = eff_tours(upd0, self.tours@);
+            proof {
+                let cv = changed_vehicles@;
+                let vts = sched_types(self);
+                lemma_real_filter(cv, it.snapshot@@);
+                assert(rc[k] == *vehicle);
+                assert(real_in(cv, rc[k]));
+                let i = choose|i: int| 0 <= i < cv.len() && cv[i] == rc[k];
+                assert(self.change_ok(trs0, vehicles@, tours@, cv[i]));
+                assert(!done(rc, k, *vehicle)) by {
+                    if done(rc, k, *vehicle) {
+                        let j = choose|j: int| 0 <= j < k && #[trigger] rc[j] == *vehicle;
+                        assert(rc[j] == rc[k]);
+                    }
+                }
+                // magnitudes
+                assert forall|i: int| 0 <= i < vts.len() implies (#[trigger] transitions@[vts[i]]).wf_but_empty(&self.network, e0) by {
+                    assert(vts.contains(vts[i]));
+                    assert(trs0.contains_key(vts[i]));
+                    assert(transitions@.contains_key(vts[i]));
+                }
+                lemma_type_sums_bounds(&self.network, e0, transitions@, vts);
+            }
+//@before "let new_transition = match"
+            proof {
+                let vts = sched_types(self);
+                assert(vehicle_type == self.eff_type(vehicles@, *vehicle));
+                assert(trs0.contains_key(vehicle_type));
+                assert(transitions@.contains_key(vehicle_type));
+                assert(*old_transition == transitions@[vehicle_type]);
+                assert(old_transition.wf(&self.network, e0));
+                assert(old_transition.has_vehicle(*vehicle) <==> self.member_at(vehicles@, rc, k, *vehicle, vehicle_type));
+                assert(!upd0.contains_key(*vehicle));
+                assert(vts.contains(vehicle_type));
+                let i = choose|i: int| 0 <= i < vts.len() && vts[i] == vehicle_type;
+                assert(0 <= transitions@[vts[i]].total_len() <= len_sum(transitions@, vts));
+            }
+//@before "*maintenance_violation ="
+            proof {
+                let v = *vehicle;
+                let vts = sched_types(self);
+                let ls = len_sum(transitions@, vts);
+                old_transition@.lemma_bounds(&self.network, e0);
+                if vehicles@.contains_key(v) {
+                    assert(tours_updated_one_by_one@ == upd0.insert(v, &tours@[v]));
+                    assert(new_transition.wf(&self.network, e0.insert(v, tours@[v])));
+                    new_transition@.lemma_bounds(&self.network, e0.insert(v, tours@[v]));
+                    if self.vehicles@.contains_key(v) {
+                        lemma_same_cycles_len(old_transition, &new_transition);
+                    } else {
+                        lemma_own_cycle_len(old_transition, &new_transition, v);
+                    }
+                    assert forall|x: VehicleIdx| #[trigger] new_transition.has_vehicle(x) <==> (old_transition.has_vehicle(x) || x == v) by {}
+                } else {
+                    assert(tours_updated_one_by_one@ == upd0);
+                    assert(new_transition.wf(&self.network, e0));
+                    new_transition@.lemma_bounds(&self.network, e0);
+                    assert forall|x: VehicleIdx| #[trigger] new_transition.has_vehicle(x) <==> (old_transition.has_vehicle(x) && x != v) by {}
+                }
+                lemma_step(self, trs0, transitions@, upd0, tours_updated_one_by_one@, vehicles@, tours@, rc, k, new_transition);
+                lemma_type_sums_insert(transitions@, vts, vehicle_type, new_transition);
+                assert(ls * vehicle_bound() <= 0x400_0000_0000_0000) by (nonlinear_arith)
+                    requires 0 <= ls <= 0x2_0000, vehicle_bound() == 0x200_0000_0000;
+            }
+//@after "for vehicle in"
+        proof {
+            let cv = changed_vehicles@;
+            assert(exists|out: Seq<&VehicleIdx>| #[trigger] is_real_filter(cv, out)
+                && self.inv_at(trs0, transitions@, tours_updated_one_by_one@, vehicles@, tours@, derefs(out), out.len() as int));
+            let out = choose|out: Seq<&VehicleIdx>| #[trigger] is_real_filter(cv, out)
+                && self.inv_at(trs0, transitions@, tours_updated_one_by_one@, vehicles@, tours@, derefs(out), out.len() as int);
+            lemma_real_filter(cv, out);
+            lemma_finish(self, trs0, mv0, transitions@, tours_updated_one_by_one@, cv, vehicles@, tours@, derefs(out));
+        }
+//@end
+
 } // mod tr
 } // verus!
 fn main() {}
